@@ -64,6 +64,7 @@ type VC struct {
 	litSeen  map[string]bool
 	Opt      VCOptions
 	inlineDepth int
+	lookupNames map[string]string
 	lightAssemble bool // Houdini candidate checks: skip the generator-side forall instantiation
 }
 
@@ -80,6 +81,7 @@ func NewVC(p *Program, fn *ssa.Function, opt VCOptions) *VC {
 }
 
 func (vc *VC) reset() {
+	vc.lookupNames = nil
 	vc.keys[clockKey.Name] = clockKey
 	vc.events = nil
 	vc.nfresh = 0
@@ -400,6 +402,10 @@ func instantiateForallsOnce(text string, seen map[string]bool) []string {
 		selSeen[k] = true
 		sels = append(sels, sel{a[0], a[1]})
 	}
+	// goal witnesses (skolem constants) first: they are what the hypotheses must be instantiated at
+	sort.SliceStable(sels, func(i, j int) bool {
+		return strings.Contains(sels[i].idx, "sk!") && !strings.Contains(sels[j].idx, "sk!")
+	})
 	faSeen := map[string]bool{}
 	idx := 0
 	for {
@@ -476,7 +482,7 @@ func instantiateForallsOnce(text string, seen map[string]bool) []string {
 				if pass == 0 && na != arrE {
 					continue
 				}
-				if pass == 1 && (na == arrE || heapFamily(na) != fam || fam == "") {
+				if pass == 1 && (na == arrE || heapFamily(na) != fam || fam == "" || strings.HasPrefix(na, "(select ") != strings.HasPrefix(arrE, "(select ")) {
 					continue
 				}
 				inst := sl.idx
